@@ -3,16 +3,16 @@ CONSTANTS
   Names <- MCNames
   RNames <- MCRNames
   LabelBytes <- MCLabelBytes
-  Fixed <- MCFixed
-  FixedWithName <- MCFixed
+  Fixed <- RealFixed
+  FixedWithName <- RealFixedWithName
   MaxQ = 1
-  MaxAn = 3
+  MaxAn = 2
   MaxNs = 1
-  MaxAr = 2
-  Typical = 70
-  Absolute = 110
+  MaxAr = 1
+  Typical = 1460
+  Absolute = 8966
   RollbackGE = TRUE
-  OffsetInBytes = FALSE
+  OffsetInBytes = TRUE
 INVARIANT NoBad
 INVARIANT TableSound
 INVARIANT Sizes
